@@ -31,3 +31,85 @@ def ISep (lt : K → K → Bool) (c : Config K V) : Prop :=
     (∃ s', sr.keys.head? = some s' ∧ eqv lt s s' = true) ∨ Lowering c.threads r s
 
 end Gobptree.Conc
+
+namespace Gobptree.Conc
+open Gobptree
+
+variable {K V : Type}
+
+/-- tree-level form of `ISep` with an abstract set of "lowering in progress" witnesses -/
+def ISepW (lt : K → K → Bool) (Wit : Nat → K → Prop) (t : Tree K V) : Prop :=
+  ∀ (g j r : Nat) (sg sr : Shallow K V) (s : K), t.look g = some sg → sg.kids[j]? = some r → t.look r = some sr →
+    0 < sr.height → sg.keys[j]? = some s →
+    (∃ s', sr.keys.head? = some s' ∧ eqv lt s s' = true) ∨ Wit r s
+
+/-- the witness a continuation itself provides -/
+def kontWit : Kont K V → Nat → K → Prop
+  | .upChild key _ _ r 0 _ => fun r' s => r' = r ∧ s = key
+  | _ => fun _ _ => False
+
+def parkWit : Park K V → Nat → K → Prop
+  | .want _ k => kontWit k
+  | _ => fun _ _ => False
+
+def flowWit : Flow K V → Nat → K → Prop
+  | .park p => parkWit p
+  | _ => fun _ _ => False
+
+theorem lowering_iff (ths : List (Thread K V)) (r : Nat) (s : K) :
+    Lowering ths r s ↔ ∃ th ∈ ths, parkWit th.park r s := by
+  constructor
+  · rintro ⟨th, hth, l, f, y, child, hp⟩
+    exact ⟨th, hth, by rw [hp]; exact ⟨rfl, rfl⟩⟩
+  · rintro ⟨th, hth, hw⟩
+    cases hp : th.park with
+    | want l k =>
+      rw [hp] at hw
+      cases k with
+      | upChild key f y parent index child =>
+        cases index with
+        | zero =>
+          obtain ⟨e1, e2⟩ := hw
+          exact ⟨th, hth, l, f, y, child, by rw [hp, e1, e2]⟩
+        | succ n => exact absurd hw id
+      | _ => exact absurd hw id
+    | _ => rw [hp] at hw; exact absurd hw id
+
+theorem isep_iff (lt : K → K → Bool) (c : Config K V) :
+    ISep lt c ↔ ISepW lt (fun r s => ∃ th ∈ c.threads, parkWit th.park r s) c.tree := by
+  unfold ISep ISepW
+  constructor
+  · intro h g j r sg sr s a b cc d e
+    rcases h g j r sg sr s a b cc d e with h1 | h1
+    · exact Or.inl h1
+    · exact Or.inr ((lowering_iff _ _ _).1 h1)
+  · intro h g j r sg sr s a b cc d e
+    rcases h g j r sg sr s a b cc d e with h1 | h1
+    · exact Or.inl h1
+    · exact Or.inr ((lowering_iff _ _ _).2 h1)
+
+/-- interface of the per-block separator lemmas: with the other threads' witnesses `Wit`
+    (all about nodes whose mutex the running thread does not hold) and the running thread's
+    own, the separator invariant survives the stretch with the own witness replaced by the
+    one of the continuation it parks with -/
+def ResumeIU (K V : Type) : Prop :=
+  ∀ (lt : K → K → Bool) (P : Params K) (t : Nat) (s : St K V) (k : Kont K V) (H : List Lk) (hole : Option Nat)
+    (Wit : Nat → K → Prop),
+    isDelK k = false → KParams lt P → Pre P hole s → KontOk s.tree k →
+    CursorOk s.tree (isHopK k) s.cursor → KontPre s.cursor k → Covers H s.cursor k →
+    OrdTree lt s.tree → KPos lt s.tree k →
+    (∀ r x, Wit r x → Lk.node r ∉ H) →
+    ISepW lt (fun r x => Wit r x ∨ kontWit k r x) s.tree →
+    ISepW lt (fun r x => Wit r x ∨ flowWit (resume P t s k).2 r x) (resume P t s k).1.tree
+
+def ResumeID (K V : Type) : Prop :=
+  ∀ (lt : K → K → Bool) (P : Params K) (t : Nat) (s : St K V) (k : Kont K V) (H : List Lk)
+    (Wit : Nat → K → Prop),
+    isDelK k = true → KParams lt P → Pre P (kontHole k) s → KontOk s.tree k →
+    KontPre s.cursor k → Covers H s.cursor k →
+    OrdTree lt s.tree → KPos lt s.tree k →
+    (∀ r x, Wit r x → Lk.node r ∉ H) →
+    ISepW lt Wit s.tree →
+    ISepW lt Wit (resume P t s k).1.tree ∧ StableRoutes lt H s.tree (resume P t s k).1.tree
+
+end Gobptree.Conc
